@@ -1201,19 +1201,30 @@ def rule_digit_window_allowance(col, facts):
     if tg is None:
         return
     worst = None
-    n = 0
+    worst2 = None
+    n = n2 = 0
     for _t, atoms, env in enum_paths(f, 0, {tg}, want_env=True, resolve_atoms=True):
         dec = [p for e, p in atoms if strip_casts(e)[0] == "bin" and strip_casts(e)[1] == "Eq" and strip_casts(strip_casts(e)[3]) == ("k", 10) and any(last_seg(c[1]) == "radix" for c in expr_calls(e))]
-        if dec and dec[-1] is False:
-            continue                        # non-decimal: the generic integer writer needs no fixed window
         if any(_const_atom_contradicts(a, p) for a, p in atoms):
             continue                        # e.g. `18 > 20` taken as true: not a path
-        n += 1
         val = env.get(addend[1])
         e = resolve_env(val[1], env) if val and val[0] == "expr" else addend
         lb = _lower_bound(e, atoms)
+        if dec and dec[-1] is False:
+            # non-decimal: the power-of-two writers emit every digit of the (re-aligned) mantissa - 53 in radix
+            # 2 - before they trim the trailing zeros, whatever max_significant_digits says
+            n2 += 1
+            if worst2 is None or lb < worst2[0]:
+                worst2 = (lb, show(strip_casts(simplify_proj(e))))
+            continue
+        n += 1
         if worst is None or lb < worst[0]:
             worst = (lb, show(strip_casts(simplify_proj(e))))
+    if "power-of-two" in facts.config or "radix" in facts.config:
+        mant = facts.const_value("<f64 as lexical_util::num::Float>::MANTISSA_SIZE", required=False)
+        mant = (mant + 1) if isinstance(mant, int) else 53
+        col.check(R, "buffer_size_const:mantissa-digits(non-decimal)", worst2 is not None and worst2[0] >= mant and n2 >= 1,
+                  "on a non-decimal path the significant-digit term can be as small as %s (`%s`) but the power-of-two writers emit all %d binary digits of the mantissa before trimming trailing zeros: radix 2, max_significant_digits 5, negative break -300, 2^-300 panics in a buffer of the documented size" % ((worst2 or (0, "?"))[0], (worst2 or (0, "?"))[1], mant), f.loc(f.blocks[tg]["ts"]))
     col.check(R, "buffer_size_const:digit-window", worst is not None and worst[0] >= window and n >= 1,
               "on a decimal path the significant-digit term can be as small as %s (`%s`) but the digits are first written through a %d-byte window: with a small max_significant_digits and a large negative exponent break the documented buffer is too short" % ((worst or (0, "?"))[0], (worst or (0, "?"))[1], window), f.loc(f.blocks[tg]["ts"]))
 
